@@ -100,8 +100,8 @@ CHECKS = {
         cat="fault_enumeration", engine="faultmon+iomon", design="3/C12",
         technique="runtime monitoring: fault injection at the libc boundary, statuses + post-fault recovery checked against the acknowledged history (+ASan/UBSan pass)",
         text="One fault rule per run: (libc call class, file class, n-th occurrence) x {one-shot, persistent} x errno x "
-             "{clean, short write}, enumerated from a reference run; the process must not crash or hang, reads stay "
-             "correct, and after the fault clears both close+reopen and a kill image hold every batch that returned OK.",
+             "{clean, short write}, enumerated from a reference run; the process must not crash or hang (a logical stuck-call watcher reports a call that "
+             "does not return while the library keeps retrying, or while every thread is blocked), reads stay correct, and after the fault clears both close+reopen and a kill image hold every batch that returned OK.",
         note="Faults at the libc boundary of this build; one rule per run; single writer."),
     "C13": dict(
         cat="exploration", engine="histmon+iomon", design="3/C13",
@@ -128,7 +128,8 @@ with open(os.path.join(VERIF, "properties.jsonl")) as f:
 CHECKS["C19"] = dict(
     cat="exploration", engine="repairmon+refcodec", design="3/C19",
     technique="runtime monitoring: model/independent-decoder oracle over generated histories followed by metadata loss, ldb_repair and ldb_open (+ASan/UBSan pass)",
-    text="Histories that make file numbering contradict data age are closed, their MANIFEST/CURRENT lost or damaged in 7 "
+    text="Histories that make file numbering contradict data age (incl. 14-22 mutually overlapping tables kept on disk by "
+         "pinned iterators) are closed, their MANIFEST/CURRENT lost or damaged in 7 "
          "ways (optionally one data file too), repaired and reopened; every key's lookup, both scan directions, follow-up "
          "writes, a reopen and the file/sequence counters are checked against the newest-by-sequence contents decoded "
          "independently from the surviving files.",
@@ -148,7 +149,8 @@ CHECKS["C16"] = dict(
     cat="exploration", engine="fmtmon_table+refcodec", design="3/C16",
     technique="runtime monitoring: real table builder/reader checked against the input set and an independently written table/Snappy/bloom reader (+ASan/UBSan pass)",
     text="Tables are built by the real builder for generated entry sets under all 576 option tuples and three key domains; "
-         "the real reader must return exactly the input (scans, seeks, gets, filters) and the independent reader must "
+         "the real reader (half of the filtered tables through a bloom policy with another bits_per_key than the "
+         "builder's) must return exactly the input (scans, seeks, gets, filters) and the independent reader must "
          "decode the same entries from the bytes (CRCs over stored bytes, restart arrays, separators, footer, filter "
          "base); Snappy is cross-checked in both directions; the separator/successor contract is checked exhaustively on "
          "short strings.",
